@@ -113,3 +113,35 @@ contract(F, "TableMethod._can_give_terms", props=["C03"],
          params={"shifts": List(Opt(Int))}, returns=Bool,
          ensures=["result == forall(lambda i: implies(0 <= i and i < len(shifts), is_none(shifts[i]) or val(shifts[i]) > 0))"],
          modifies=[], notes="a rule fires only when every shift is positive or infinite")
+
+# ---------------------------------------------------------------- TableMethod queries (C03, C11)
+Bucket = Opaque("RuleBucket")
+ForestRuleKey = Tup(Int, Seq(Int), Seq(Int), Bucket, names=["parent", "children", "shifts", "bucket"], nm="ForestRuleKey")
+named_tuple("ForestRuleKey", ForestRuleKey)
+REG.classes["TableMethod"].fields.update({"_rules": List(ForestRuleKey), "_function": Obj("Function")})
+FAL = {"ForestRuleKey": ForestRuleKey}
+
+contract(F, "Function.preimage", props=["C03", "C11"], aliases=FAL,
+         params={"self": Obj("Function"), "value": Opt(Int)}, returns=Seq(Int),
+         raises=[("ValueError", "value == 0")],
+         ensures=["forall(lambda x: (x in result) == (0 <= x and x < len(self._value) and self._value[x] == value))"],
+         modifies=[], notes="the keys whose value is `value` (None = infinity)")
+
+contract(F, "TableMethod.is_pumping", props=["C03", "C11"], aliases=FAL,
+         params={"self": Obj("TableMethod"), "label": Int}, returns=Bool, requires=["label >= 0"],
+         ensures=["result == is_none(old(" + "ite(label < len(self._function._value), self._function._value[label], 0)" + "))"],
+         modifies=["*self._function._value", "*self._function._preimage_count._list"],
+         notes="a class is pumping iff its value is infinity")
+
+contract(F, "TableMethod.stable_subset", props=["C11"], inline=True, verify=False, aliases=FAL,
+         trusted_reason="one-line helper, inlined from its real source", params={})
+
+contract(F, "TableMethod.pumping_subuniverse", props=["C11"], aliases=FAL,
+         params={"self": Obj("TableMethod")}, returns=Seq(ForestRuleKey),
+         requires=["forall(lambda i: implies(0 <= i and i < len(self._rules), self._rules[i].parent >= 0 and "
+                   "forall(lambda j: implies(0 <= j and j < len(self._rules[i].children), self._rules[i].children[j] >= 0))))"],
+         yields=["exists(lambda i: 0 <= i and i < len(self._rules) and self._rules[i] == it)",
+                 "it.parent < len(self._function._value) and is_none(self._function._value[it.parent])",
+                 "forall(lambda j: implies(0 <= j and j < len(it.children), it.children[j] < len(self._function._value) and "
+                 "is_none(self._function._value[it.children[j]])))"],
+         modifies=[], notes="only stored rule keys all of whose classes are pumping (restriction to the pumping sub-universe)")
